@@ -786,6 +786,9 @@ mod variant;
 
 pub mod mem;
 
+#[cfg(feature = "hsivonen_encoding_rs_verif")]
+pub mod verif;
+
 use crate::ascii::ascii_valid_up_to;
 use crate::ascii::iso_2022_jp_ascii_valid_up_to;
 use crate::utf_8::utf8_valid_up_to;
